@@ -90,6 +90,22 @@ def frontier(pairs, resolver=None):
     return list(out.values())
 
 
+def _mp_confirms(diff, env, tol):
+    try:
+        from .floatprobe import evalmp
+        import mpmath as mp
+        va = evalmp([a for a, _ in diff], env); vb = evalmp([b for _, b in diff], env)
+        for x, y in zip(va, vb):
+            if isinstance(x, bool) or isinstance(y, bool):
+                if x != y: return True
+                continue
+            if mp.isnan(x) != mp.isnan(y): return True
+            if not mp.isnan(x) and abs(x - y) > mp.mpf(tol) * (1 + abs(x) + abs(y)): return True
+        return False
+    except Exception:
+        return True
+
+
 def decide_equal(pairs, label, timeout=20, rng=None, assume=(), counters=None, tol=1e-9, resolver=None, opaque_prefix=None):
     """pairs: list of (a, b) nodes.  Returns (verdict, info) with verdict in
     'structural' | 'unsat' | 'differs' (numerically different at a sampled point: info=env) |
@@ -111,6 +127,11 @@ def decide_equal(pairs, label, timeout=20, rng=None, assume=(), counters=None, t
                 if x != y: return "differs", env
                 continue
             if (math.isnan(x) != math.isnan(y)) or (not math.isnan(x) and abs(x - y) > tol * (1 + abs(x) + abs(y))):
+                # confirm in 60-digit arithmetic that the two encoded programs really differ at this input
+                # (float64 evaluation of differently associated but equal expressions can disagree by cancellation)
+                if not _mp_confirms(diff, env, tol):
+                    cnt("pairs_float_noise_only")
+                    break
                 cnt("pairs_numeric_diff")
                 return "differs", env
     # 1) congruence descent to small frontier lemmas (sufficient, not necessary)
@@ -146,3 +167,36 @@ def decide_equal(pairs, label, timeout=20, rng=None, assume=(), counters=None, t
     if r.status == "sat":
         return "sat", r.model
     return "unknown", None
+
+
+def decide_runs(A, B, select, label, **kw):
+    """Equality of the selected outputs of two traced runs (simenc.Run).  A numerically different pair is
+    reported as 'differs' only if re-running both closures on the real API at that concrete input
+    reproduces the difference; otherwise the verdict is 'unreproduced' (inconclusive)."""
+    import numpy as np
+    from . import simenc
+    la, lb = select(A.sym, B.sym)
+    la = list(np.asarray(sym.to_obj(np.asarray(la, dtype=object))).reshape(-1)) if not isinstance(la, list) else la
+    lb = list(np.asarray(sym.to_obj(np.asarray(lb, dtype=object))).reshape(-1)) if not isinstance(lb, list) else lb
+    if len(la) != len(lb):
+        return "shape", None
+    verdict, info = decide_equal(list(zip(la, lb)), label, **kw)
+    if verdict == "differs":
+        try:
+            bad, d = simenc.real_api_differs(A, B, select, info)
+        except Exception as ex:
+            return "differs", dict(info, _replay_error=f"{type(ex).__name__}: {str(ex)[:100]}")
+        if not bad:
+            return "unreproduced", info
+        info = dict(info); info["_real_api_rel_dev"] = d
+    return verdict, info
+
+
+def flat(x):
+    """flatten an object/float array (or nested list of them) to a python list"""
+    import numpy as np
+    if isinstance(x, (list, tuple)):
+        out = []
+        for y in x: out += flat(y)
+        return out
+    return list(np.asarray(x, dtype=object).reshape(-1)) if sym.is_sym(x) or isinstance(x, sym.N) else list(np.asarray(x).reshape(-1))
